@@ -21,9 +21,14 @@ warnings.simplefilter("ignore")
 ID = "C17"
 BACKENDS = ("py", "rs")
 GEN_MODULES = ("Tables", "Helpers")
-MIN_THEOREMS = 17
-RULE = ("ops: ('ptotal', options, string). options = <exact><strict><day_first><year_first>:<tz> with tz = none | fixed offset "
-        "seconds | @zone name. Strings: every valid form of C07 (6 date forms, reduced dates, times, date-times with fractions "
+MIN_THEOREMS = 22
+RULE = ("ops: ('ptotal', options, string). options = <exact><strict><day_first><year_first>[n]:<tz>; the fifth flag n = the call "
+        "is made WITHOUT now= (a bare time is completed from datetime.now(); the reply is compared after today's date has been "
+        "replaced by the fixed now of the model, see impl); tz = none (no tz= argument) | naive (tz=None) | seconds (a FixedTimezone) "
+        "| h<number> (an int / float number of hours) | z<seconds> (a datetime.timezone) | @name (a str: zone name, 'UTC', 'local') "
+        "| @zi=name (a zoneinfo.ZoneInfo). A block of time-only strings and of one string per other shape runs under EVERY tz form "
+        "x exact x strict x with/without now=; interval strings with every mix of offset / no offset on the endpoints run under "
+        "tz=None. Strings: every valid form of C07 (6 date forms, reduced dates, times, date-times with fractions "
         "and offsets; generators of c07.py), of C13 (durations, 3 interval forms; generators of c13.py) and of the COMMON "
         "fallback; ALL single character edits (delete / insert / substitute over [0-9:TZW/P+-., YMDHS]) of ~45 seed strings, "
         "sampled single and double edits of freshly generated valid strings, all truncations (prefixes and suffixes) and "
@@ -46,7 +51,12 @@ TRUSTED = [
     "both backends compared on every string",
 ]
 ASSUMPTIONS = [
-    "the `tz` option is a fixed offset below 24 h in the model; zone names are exercised against the oracle only",
+    "the `tz` option is absent, None (naive values) or a fixed offset below 24 h in the model (a FixedTimezone, a number of hours "
+    "and a datetime.timezone are sent to the model as their offset in seconds); zone names (str, zoneinfo.ZoneInfo, 'local') are "
+    "exercised against the oracle only",
+    "calls without now=: today's date is not modelled; impl() makes the same call with the fixed now= as well, requires that the two "
+    "replies differ at most by (today's date -> the fixed date) in a DateTime and hands the reply with the fixed date to the model "
+    "comparison; any other difference, and any exception of the call without now=, is reported as it is",
     "dateutil fails only with ValueError (incl. its ParserError) or OverflowError: observed on the stream, any other escape is reported",
     "strings contain no lone surrogates (they cannot be encoded for the compiled parser: UnicodeEncodeError, a ValueError)",
     "Python-backend intervals whose duration is >= 2^33 s with a sub-second part (C13 finding F19, float normalisation in Duration) "
@@ -55,7 +65,18 @@ ASSUMPTIONS = [
 
 NOW = (2001, 2, 3)
 ALPH = "0123456789:TZW/P+-., YMDHS"
-TZS = ("none", "none", "none", "3600", "-16200", "50400", "@Europe/Paris", "@Pacific/Kiritimati", "@America/Sao_Paulo", "@UTC")
+TZS = ("none", "none", "none", "3600", "-16200", "50400", "@Europe/Paris", "@Pacific/Kiritimati", "@America/Sao_Paulo", "@UTC",
+       "naive", "naive", "h2", "h5.5", "h-4.5", "z3600", "z0", "@local", "@zi=Europe/Paris", "@zi=UTC")
+# every form of the `tz` argument (the block of gen_ops that crosses them with the time-only strings)
+ALL_TZ = ("none", "naive", "0", "3600", "-16200", "50400", "h0", "h2", "h-11", "h5.5", "h-4.5", "h0.0", "z0", "z3600", "z-16200",
+          "@UTC", "@local", "@Europe/Paris", "@Pacific/Kiritimati", "@zi=UTC", "@zi=Europe/Paris", "@zi=America/Sao_Paulo")
+TIME_ONLY = ["12:34", "T1234", "12:34+01:00", "1:2", "T12:34:56Z", "123456", "12", "1:2:3", "23:59:59.999999", "T12", "00:00",
+             "T235959,5-0130", "1:2:3.5"]
+OTHER_SHAPES = ["2021-03-04", "2021-03-04T12:34:56", "2021-03-04T12:34:56+01:00", "2021-03-04 12:34", "2021", "2021-W09-4", "P1D",
+                "now", "2021-03-04T00Z/2021-03-05T00", "2021-03-04T00/2021-03-05T00Z", "2021-03-04T00/2021-03-05T00",
+                "2021-03-04T00Z/2021-03-05T00+01:00", "2021-03-04T12:00/PT1H", "2021-03-04T12:00-03:00/P1M", "P1D/2021-03-04T12:00Z",
+                "PT36H/2021-03-04T12:00", "2021-03-04/2021-03-05", "2021-03-04/2021-03-05T00Z", "0001-01-01T00:30/2021-03-05T00",
+                "0001-01-01T00:30/9999-12-31T23:59:59", "10am", "Jan 3 2021 10pm", "12:34 CET", "2:", "12:34/12:35", ""]
 
 SEEDS = [
     "2021-03-04", "20210304", "2021-063", "2021063", "2021-W09-4", "2021W094", "2021-W09", "2021-03", "2021", "202103",
@@ -76,11 +97,14 @@ UDIG = "٠١٢٣٤٥٦٧٨٩۰۱۲۳०१२３４５６７８９０１２"
 # ------------------------------------------------------------------------------------------------ generator
 
 def _opts(rng):
-    return "%d%d%d%d:%s" % (rng.random() < 0.5, rng.random() < 0.6, rng.random() < 0.3, rng.random() < 0.7, rng.choice(TZS))
+    return "%d%d%d%d%s:%s" % (rng.random() < 0.5, rng.random() < 0.6, rng.random() < 0.3, rng.random() < 0.7,
+                              "n" if rng.random() < 0.15 else "", rng.choice(TZS))
 
 
 _ROT = ["0100:none", "1100:none", "0000:none", "1001:3600", "0110:-16200", "0011:none", "1010:@Europe/Paris", "0101:50400",
-        "0001:@Pacific/Kiritimati", "1101:none", "0101:@America/Sao_Paulo", "0000:3600"]
+        "0001:@Pacific/Kiritimati", "1101:none", "0101:@America/Sao_Paulo", "0000:3600",
+        "0100:naive", "0100n:@UTC", "1101:naive", "0001n:h5.5", "0100n:none", "0000n:naive", "0101:z3600", "0100:@zi=Europe/Paris",
+        "0100n:@local"]
 
 
 def _rot(i):
@@ -150,6 +174,26 @@ def unidigits(rng, s, p=0.3):
     return "".join(t)
 
 
+_OFFS = ("", "", "Z", "+01:00", "-01:00", "+00:00", "+05:30", "-23:59", "+24:00", "+99:99")
+
+
+def mixed_interval(rng):
+    """start/end (and a few start/duration, duration/end) interval strings, every mix of endpoint with / without offset"""
+    def one():
+        y, mo, d = rng.choice((1, 1970, 2021, 9999)), rng.randint(1, 12), rng.randint(1, 28)
+        h, mi = rng.choice((0, 0, 12, 23)), rng.choice((0, 30, 59))
+        body = rng.choice(("%04d-%02d-%02dT%02d:%02d:00", "%04d-%02d-%02dT%02d:%02d", "%04d%02d%02dT%02d%02d")) % (y, mo, d, h, mi)
+        return body + rng.choice(_OFFS)
+    k = rng.randrange(8)
+    if k == 0:
+        return one() + "/" + rng.choice(("PT1H", "P1D", "P1M", "PT36H", "P9998Y"))
+    if k == 1:
+        return rng.choice(("PT1H", "P1D", "P1M", "PT36H", "P9998Y")) + "/" + one()
+    if k == 2:
+        return one() + "/" + rng.choice(("2021-03-05", "2021-W09", "12:34", "2021"))
+    return one() + "/" + one()
+
+
 def boundary_interval(rng):
     y = rng.choice((1, 9999))
     mo, d = (1, 1) if y == 1 else (12, 31)
@@ -179,6 +223,22 @@ def gen_ops(rng, tier):
     for s in SEEDS + FREE_TEXT:
         for o in _ROT:
             yield op(o, s)
+    # --- the `tz` forms and the calls without now=: time-only strings and one string per other shape under every tz form
+    for s in TIME_ONLY + OTHER_SHAPES:
+        for tz in ALL_TZ:
+            for fl in ("01", "11", "00", "10"):
+                for nn in ("", "n"):
+                    yield op("%s01%s:%s" % (fl, nn, tz), s)
+    # --- tz=None: interval strings with every mix of offset / no offset on the endpoints; bare times without now=
+    for _ in range(4_000 * n):
+        s = mixed_interval(rng)
+        if rng.random() < 0.15:
+            s = edit(rng, s)
+        o = _opts(rng)
+        yield op(o.split(":")[0] + ":" + rng.choice(("naive", "naive", "naive", "none", "3600", "h2", "z-16200", "@local")), s)
+    for o0 in c07.time_ops(rng, 1_500 * n):
+        o = _opts(rng)
+        yield op(o[:4] + rng.choice(("n", "n", "")) + ":" + rng.choice(ALL_TZ), o0[2])
     # --- ALL single edits of the seeds; all truncations; pairwise concatenations
     for s in SEEDS:
         for e in all_single_edits(s):
@@ -267,6 +327,15 @@ def corpus():
         out.append(op("0000:none", s))
         out.append(op("1001:3600", s))
     out.append(op("0100:@Europe/Paris", "0001-01-01T00:00/P1D"))
+    # tz=None with one aware and one naive endpoint (TypeError from Interval.__new__ before the repair of parser._interval)
+    for s in ("2021-03-04T00Z/2021-03-05T00", "2021-03-04T00/2021-03-05T00Z", "2021-03-04T00:00:00+01:00/2021-03-05T06:00:00",
+              "2021-03-04T00/2021-03-05T00", "2021-03-04T00Z/2021-03-05T00+01:00", "2021-03-04T00/P1D", "P1D/2021-03-04T00Z"):
+        for o in ("0100:naive", "1100:naive", "0000n:naive"):
+            out.append(op(o, s))
+    # a bare time without now= under the tz forms that are not tzinfo objects (the date comes from datetime.now())
+    for s in ("12:34", "T1234", "12:34+01:00", "1:2"):
+        for tz in ("@UTC", "@Europe/Paris", "@local", "h2", "h5.5", "naive", "none", "3600"):
+            out.append(op("0100n:" + tz, s))
     out.append(op("0100:@Pacific/Pago_Pago", "P1D/9999-12-31T23:59:59"))
     return out
 
@@ -301,11 +370,35 @@ def _flags(o):
     return fl[0] == "1", fl[1] == "1", fl[2] == "1", fl[3] == "1", tz
 
 
+def _nonow(o):
+    return o.split(":", 1)[0][4:] == "n"
+
+
+def _hours(tz):
+    """'h2' -> 2, 'h5.5' -> 5.5"""
+    return float(tz[1:]) if "." in tz else int(tz[1:])
+
+
+def _tz_model(tz):
+    """the `tz` word of the model request: none | naive | <seconds> (a FixedTimezone object) | c<seconds> (a number of hours =
+    `int(hours * 60 * 60)` seconds, or a datetime.timezone: both resolve to the cached per-offset FixedTimezone of
+    `fixed_timezone()`); None for zone names (no model counterpart)"""
+    if tz.startswith("@"):
+        return None
+    if tz.startswith("h"):
+        return "c%d" % int(_hours(tz) * 60 * 60)
+    if tz.startswith("z"):
+        return "c" + tz[1:]
+    return tz
+
+
 def line(op, backend):
     _, o, s = op
     ex, strict, df, yf, tz = _flags(o)
-    if tz.startswith("@"):
+    tzw = _tz_model(tz)
+    if tzw is None:
         return None
+    o = o.split(":", 1)[0] + ":" + tzw
     if backend == "py" and "/" in s and c13._long_subsecond(("pint", _norm(s)), "py", None, None):
         return None
     du = "-" if strict else _dateutil(s, df, yf)
@@ -363,13 +456,29 @@ def show(r, s):
     return "err WrongType:" + type(r).__name__
 
 
-def _call(s, o):
-    ex, strict, df, yf, tz = _flags(o)
-    kw = dict(exact=ex, strict=strict, day_first=df, year_first=yf, now=_H["now"])
+def _tz_arg(tz):
+    """the object passed as tz= for a tz word (never called for 'none')"""
+    if tz == "naive":
+        return None
+    if tz.startswith("@zi="):
+        import zoneinfo
+        return zoneinfo.ZoneInfo(tz[4:])
     if tz.startswith("@"):
-        kw["tz"] = tz[1:]
-    elif tz != "none":
-        kw["tz"] = _H["FT"](int(tz))
+        return tz[1:]
+    if tz.startswith("h"):
+        return _hours(tz)
+    if tz.startswith("z"):
+        return dt.timezone(dt.timedelta(seconds=int(tz[1:])))
+    return _H["FT"](int(tz))
+
+
+def _call(s, o, with_now=True):
+    ex, strict, df, yf, tz = _flags(o)
+    kw = dict(exact=ex, strict=strict, day_first=df, year_first=yf)
+    if with_now:
+        kw["now"] = _H["now"]
+    if tz != "none":
+        kw["tz"] = _tz_arg(tz)
     try:
         return show(_H["P"].parse(s, **kw), s)
     except _H["PE"]:
@@ -380,9 +489,31 @@ def _call(s, o):
         return "err Other:" + type(e).__name__
 
 
+def _call_op(s, o):
+    """the call the op describes. Without now= (flag n) the date of a bare time is today's: the same call is made with the fixed
+    now= too; the two replies must be equal, or two DateTimes that differ only by today's date <-> the fixed date (then the reply
+    with the fixed date is returned, which is what the model computes). An exception of the call without now= is returned as it
+    is; any other difference is 'err NowDependent:…' (reported by the oracle)."""
+    if not _nonow(o):
+        return _call(s, o)
+    d0 = dt.date.today()
+    out1 = _call(s, o, with_now=False)
+    d1 = dt.date.today()
+    out2 = _call(s, o)
+    if out1 == out2 or out1.startswith("err"):
+        return out1
+    w1, w2 = out1.split(" "), out2.split(" ")
+    named = _flags(o)[4].startswith("@")        # a zone name: the UTC offset depends on the date (no model counterpart)
+    if (w1[:2] == ["ok", "DateTime"] == w2[:2] and len(w1) == len(w2) == 10 and w1[5:9] == w2[5:9] and (named or w1[9] == w2[9])
+            and tuple(map(int, w2[2:5])) == NOW
+            and tuple(map(int, w1[2:5])) in ((d0.year, d0.month, d0.day), (d1.year, d1.month, d1.day))):
+        return out1 if named else out2
+    return "err NowDependent:%s|%s" % (out1.replace(" ", "_"), out2.replace(" ", "_"))
+
+
 def impl(op, backend):
     _, o, s = op
-    out = _call(s, o)
+    out = _call_op(s, o)
     other = None
     if backend == "rs":
         # the same call through the pure-Python parser (what PENDULUM_EXTENSIONS=0 selects), to compare the backends
@@ -390,7 +521,7 @@ def impl(op, backend):
         saved = (PP.parse_iso8601, PP.Duration)
         PP.parse_iso8601, PP.Duration = _H["py_iso"], _H["PyDuration"]
         try:
-            other = _call(s, o)
+            other = _call_op(s, o)
         finally:
             PP.parse_iso8601, PP.Duration = saved
     _H["last"] = (op, other)
@@ -433,6 +564,9 @@ FIVE = ("ok DateTime", "ok Date ", "ok Time", "ok Duration", "ok Interval")
 def oracle(op, out, backend):
     _, o, s = op
     ex, strict, df, yf, tz = _flags(o)
+    # 0. a call without now= may differ from the call with now= only by today's date in the DateTime built from a bare time
+    if out.startswith("err NowDependent:"):
+        return f"parse({s!r}, {o}) without now= / with now=: {out[len('err NowDependent:'):]}"
     # 1. totality
     if out.startswith("err"):
         if out not in ("err ParserError", "err ValueError"):
@@ -458,6 +592,22 @@ def oracle(op, out, backend):
                 v = c13.oracle(("pint", t), "ok " + out[len("ok Interval "):] if out.startswith("ok") else out, backend)
                 if v:
                     return "interval value: " + v
+    elif t.count("/") == 1 and tz == "naive" and out.startswith("ok Interval "):
+        # tz=None: an endpoint keeps the offset written in the string, or is naive (start/duration, duration/end: both ends
+        # like the one datetime of the string)
+        def written(x):
+            if not _ISO_EXT.fullmatch(x):
+                return None
+            try:
+                off = dt.datetime.fromisoformat(x.replace(" ", "T")).utcoffset()
+            except ValueError:
+                return None
+            return "none" if off is None else str(off.days * 86400 + off.seconds)
+        a, b = t.split("/")
+        wa, wb = (written(b) if a[:1] == "P" else written(a)), (written(a) if b[:1] == "P" else written(b))
+        w = out.split(" ")
+        if wa is not None and wb is not None and (w[9], w[17]) != (wa, wb):
+            return f"tz=None, {s!r}: expected endpoint offsets {wa}, {wb}; got {w[9]}, {w[17]}"
     elif _ISO_EXT.fullmatch(t) and out.startswith("ok") and not tz.startswith("@"):
         try:
             r = dt.datetime.fromisoformat(t.replace(" ", "T"))
@@ -465,8 +615,9 @@ def oracle(op, out, backend):
             r = None
         if r is not None:
             off = r.utcoffset()
-            offs = (0 if tz == "none" else int(tz)) if off is None else off.days * 86400 + off.seconds
-            want = "ok DateTime %d %d %d %d %d %d %d %d" % (r.year, r.month, r.day, r.hour, r.minute, r.second, r.microsecond, offs)
+            # without explicit offset: the `tz` option (UTC by default; tz=None: a naive DateTime)
+            offs = ("0" if tz == "none" else "none" if tz == "naive" else _tz_model(tz).lstrip("c")) if off is None else str(off.days * 86400 + off.seconds)
+            want = "ok DateTime %d %d %d %d %d %d %d %s" % (r.year, r.month, r.day, r.hour, r.minute, r.second, r.microsecond, offs)
             if out != want:
                 return f"{s!r}: expected {want!r}, got {out!r}"
     # 4. both backends (strict=True: with strict=False a string that only one parser accepts goes to dateutil in the other)
